@@ -401,3 +401,37 @@ def arm_patch(ev, thumb, mod4):
     sim["ins"] = ins
     sim["total"] = len(bs)
     return sim
+
+
+def mapping_request_obligations(ck, rule, tm):
+    """The trampoline mapping is requested readable, writable and executable (mmap: PROT_READ|PROT_WRITE|PROT_EXEC on an anonymous
+    private mapping; VirtualAlloc: MEM_COMMIT|MEM_RESERVE with PAGE_EXECUTE_READWRITE): without write the trampoline cannot be
+    filled in, without execute the first call through the patched entry faults."""
+    n = 0
+    for p in allocator_fns(tm):
+        try:
+            vs = allocator_variants(tm, p)
+        except Exception as e:
+            ck.ob(rule, "%s/mapping-request/analysable" % short(p), tm.target, False, "allocator could not be analysed: %s" % e)
+            continue
+        seen = set()
+        for v in vs:
+            for ev in v.trace:
+                if ev.kind != "ffi" or ev.name not in ALLOC_FFI or where(ev) in seen:
+                    continue
+                seen.add(where(ev))
+                n += 1
+                cst = lambda a: a.cval() if isinstance(a, Int) and a.is_const() else None
+                if ev.name.endswith("mmap"):
+                    prot, flags = cst(ev.args[2]), cst(ev.args[3])
+                    anon = 0x20 if tm.os == "linux" else 0x1000
+                    ok = prot is not None and (prot & 7) == 7 and flags is not None and (flags & anon) == anon and (flags & 0x2) == 0x2
+                    why = "mmap(prot=%s, flags=%s): needs PROT_READ|PROT_WRITE|PROT_EXEC and MAP_PRIVATE|MAP_ANON" % (
+                        hex(prot) if prot is not None else "?", hex(flags) if flags is not None else "?")
+                else:
+                    typ, prot = cst(ev.args[2]), cst(ev.args[3])
+                    ok = typ is not None and (typ & 0x3000) == 0x3000 and prot == 0x40
+                    why = "VirtualAlloc(type=%s, protect=%s): needs MEM_COMMIT|MEM_RESERVE and PAGE_EXECUTE_READWRITE" % (
+                        hex(typ) if typ is not None else "?", hex(prot) if prot is not None else "?")
+                ck.ob(rule, "%s/mapping-requested-rwx" % short(p), tm.target, ok, why, where(ev))
+    return n
